@@ -117,6 +117,9 @@ class W {
 }
 g_w = W()
 g_oint: int? = 5
+g_int: int = 4
+g_fl: float = 2.5
+g_big: bigint = B7
 g_ostr: str? = "s"
 g_obool: bool? = true
 g_olist: [int...]? = [1, 2]
@@ -535,6 +538,14 @@ def faults(site):
     out = []
     if site.kind == "scope":
         return [("out-of-scope-name:" + n, n) for n in site.extra]
+    if site.kind == "tail":
+        return [("path-without-return:" + t, t) for t in site.extra]
+    if site.family.startswith("T-oa-"):
+        # right operands the operator accepts but whose result is of another type than the target (plus two it does not accept)
+        w = {"T-oa-int": ["1.5", "B1", "g_fl", "g_big"], "T-oa-byte": ["1", "1.5", "B1", "g_int"], "T-oa-bigint": ["1.5", "g_fl"], "T-oa-float": []}[site.family]
+        if site.extra == "+=":
+            w = w + ["\"s\""]
+        return [("result-of-another-type:" + x, x) for x in w] + [("near-miss-type:true", "true"), ("near-miss-type:g_obj", "g_obj")]
     if site.family.startswith("T-"):
         return [("near-miss-type:" + w, w) for w in WRONG[site.family]] + [("undeclared-name", "undeclared_zz")]
     k = site.kind
@@ -677,6 +688,8 @@ def check(case):
                 span = enclosing_fn_span(lines, ln)
             else:
                 mut, where = render(files, sites, (s.sid, repl))
+                if s.kind == "tail":
+                    span = enclosing_fn_span(mut[where[0]].split("\n"), where[1])
             if fname == "bare-return":
                 f, ln = where
                 lines = mut[f].split("\n")
@@ -789,6 +802,135 @@ def position_matrix():
     return out
 
 
+# the LAST statement of a function with a declared result type: forms that leave a path to the end of the function without a
+# value must be rejected whatever construct hides the path (a loop may run zero times or be left by break / continue; an if
+# may lack its else). Controls: the forms in RETURN_TAILS_OK return on every path.
+RETURN_TAILS_OK = ["return 1", "if g_int > 0 { return 1 } else { return 2 }", "if g_int > 0 { return 1 } else if g_int > 1 { return 2 } else { return 3 }"]
+RETURN_TAILS_BAD = [
+    "while g_int > 9 { return 1 }", "while g_int > 9 { if g_int > 3 { continue } return 1 }", "while g_int > 9 { if g_int > 3 { break } return 1 }",
+    "while g_int > 9 { if g_int > 3 { return 1 } else { return 2 } }", "while true { if g_int > 3 { break } return 1 }",
+    "from 0 to g_int { return 1 }", "from 0 to 0 { return 1 }", "from 0 to g_int, i_ { if i_ > 3 { return 1 } else { return 2 } }",
+    "if g_int > 0 { return 1 }", "if g_int > 0 { return 1 } else if g_int > 1 { return 2 }", "if g_int > 0 { return 1 } else { print 2 }",
+    "if g_int > 0 { print 1 } else { return 2 }", "if g_int > 0 { while g_int > 9 { return 1 } } else { return 2 }",
+    "if g_int > 0 { return 1 } else { while g_int > 9 { return 2 } }", "if g_int > 0 { return 1 } else { from 0 to g_int { return 2 } }",
+    "if g_int > 0 { if g_int > 1 { return 1 } } else { return 2 }", "print 1", "g_list.push(1)"]
+RETURN_PLACES = ["function", "method", "closure", "callback", "after-statements", "in-else-of-function"]
+
+
+def return_path_matrix():
+    out = []
+    for place in RETURN_PLACES:
+        for ok in RETURN_TAILS_OK:
+            b = Builder(None, "main.ms")
+            b.add("print \"@START\"")
+            tail = lambda: b.site("tail", ok, "tail", RETURN_TAILS_BAD)
+            if place == "function":
+                b.add("rp = fn(q: int) -> int {")
+                b.add("\t" + tail())
+                b.add("}")
+                b.add("print rp(1)")
+            elif place == "after-statements":
+                b.add("rp = fn(q: int) -> int {")
+                b.add("\tw0 = q + 1")
+                b.add("\tif w0 > 100 {")
+                b.add("\t\treturn w0")
+                b.add("\t}")
+                b.add("\t" + tail())
+                b.add("}")
+                b.add("print rp(1)")
+            elif place == "in-else-of-function":
+                b.add("rp = fn(q: int) -> int {")
+                b.add("\tif q > 100 {")
+                b.add("\t\treturn q")
+                b.add("\t} else {")
+                b.add("\t\t" + tail())
+                b.add("\t}")
+                b.add("}")
+                b.add("print rp(1)")
+            elif place == "method":
+                b.add("class Rp {")
+                b.add("\tfn rp(self, q: int) -> int {")
+                b.add("\t\t" + tail())
+                b.add("\t}")
+                b.add("}")
+                b.add("ro = Rp()")
+                b.add("print ro.rp(1)")
+            elif place == "closure":
+                b.add("mkrp = fn(q: int) -> fn() -> int {")
+                b.add("\treturn fn() -> int {")
+                b.add("\t\t" + tail())
+                b.add("\t}")
+                b.add("}")
+                b.add("inner = mkrp(1)")
+                b.add("print inner()")
+            else:
+                b.add("mapped = g_list.map(fn(q: int) -> int {")
+                b.add("\t" + tail())
+                b.add("})")
+                b.add("print mapped")
+            b.add("print \"@END\"")
+            out.append({"files": {"main.ms": PRELUDE + "\n".join(b.lines) + "\n"}, "sites": list(b.sites), "matrix": "return-path|%s|%s" % (place, ok)})
+    return out
+
+
+# compound assignments: `t OP= v` must be rejected when `t OP v` is of another type than t - whatever t is spelled as (a variable,
+# a captured variable, a list element, a nested element, a map value, a field from outside and through self)
+OA_TYPES = {"T-oa-int": ("int", "1"), "T-oa-byte": ("byte", "0b1"), "T-oa-bigint": ("bigint", "B1"), "T-oa-float": ("float", "1.5")}
+OA_TARGETS = ["variable", "captured", "element", "nested-element", "map-value", "field", "self-field", "field-of-element"]
+
+
+def opassign_matrix():
+    out = []
+    for fam, (ty, good) in OA_TYPES.items():
+        for target in OA_TARGETS:
+            for op in ("+=", "-=", "*=", "/=", "%="):
+                b = Builder(None, "main.ms")
+                b.add("print \"@START\"")
+                site = lambda: b.site(fam, good, "value", op)
+                if target == "variable":
+                    b.add("v1: %s = %s" % (ty, good))
+                    b.add("v1 %s %s" % (op, site()))
+                elif target == "captured":
+                    b.add("v1: %s = %s" % (ty, good))
+                    b.add("bump = fn() {")
+                    b.add("\tv1 %s %s" % (op, site()))
+                    b.add("}")
+                    b.add("bump()")
+                elif target == "element":
+                    b.add("l1: [%s...] = [%s, %s]" % (ty, good, good))
+                    b.add("l1[0] %s %s" % (op, site()))
+                elif target == "nested-element":
+                    b.add("n1: [[%s...]...] = [[%s], [%s]]" % (ty, good, good))
+                    b.add("n1[1][0] %s %s" % (op, site()))
+                elif target == "map-value":
+                    b.add("m1 = map[str, %s] {\"k\": %s}" % (ty, good))
+                    b.add("m1[\"k\"] %s %s" % (op, site()))
+                else:
+                    b.add("class Fd {")
+                    b.add("\tv: %s" % ty)
+                    b.add("\tconstructor(self) {")
+                    b.add("\t\tself.v = %s" % good)
+                    b.add("\t}")
+                    if target == "self-field":
+                        b.add("\tfn bump(self) {")
+                        b.add("\t\tself.v %s %s" % (op, site()))
+                        b.add("\t}")
+                    b.add("}")
+                    b.add("fo = Fd()")
+                    if target == "field":
+                        b.add("fo.v %s %s" % (op, site()))
+                    elif target == "self-field":
+                        b.add("fo.bump()")
+                    else:
+                        b.add("lf: [Fd...] = [fo]")
+                        b.add("if true {")          # a statement that starts with `(` would continue the previous line
+                        b.add("}")
+                        b.add("(lf[0]).v %s %s" % (op, site()))
+                b.add("print \"@END\"")
+                out.append({"files": {"main.ms": PRELUDE + "\n".join(b.lines) + "\n"}, "sites": list(b.sites), "matrix": "opassign|%s|%s|%s" % (target, ty, op)})
+    return out
+
+
 def scope_matrix():
     """a name that IS declared - but in a scope that does not reach the place of use (another branch of the same if, a loop body
     that has ended, a function's locals and parameters seen from outside, an inner block) must be diagnosed like an unknown name.
@@ -832,7 +974,7 @@ def scope_matrix():
 
 
 def enumerated(tier, seed):
-    return position_matrix() + scope_matrix()
+    return position_matrix() + scope_matrix() + opassign_matrix() + return_path_matrix()
 
 
 @st.composite
